@@ -504,6 +504,18 @@ class Program:
                             out.append((bid, blk.idx, i, s.rv))
         return out
 
+    def constructions_in(self, body_id):
+        """every ADT aggregate built in body_id: (body id, bb, stmt idx, rvalue)"""
+        out = []
+        b = self.facts.body(body_id)
+        for blk in b.blocks:
+            if blk.cleanup:
+                continue
+            for i, s in enumerate(blk.stmts):
+                if s.k == "assign" and s.rv.k == "agg" and s.rv.j.get("ak") == "adt":
+                    out.append((body_id, blk.idx, i, s.rv))
+        return out
+
     # ------------------------------------------------------------------ locks (G8)
     def lock_sites(self, body_id):
         """(bb, mode, cells of the lock, guard local) for every lock acquisition in the body"""
